@@ -15,6 +15,7 @@ type verifConsumer struct {
 	closed   int
 	panicAt  int // panic when receiving the panicAt-th pack (1-based); 0 = never
 	closeAt  int // after this many packs, close the consumption (to end the loop)
+	closePanics bool
 	c        *consumption
 }
 
@@ -27,7 +28,13 @@ func (v *verifConsumer) Consume(p Pack) {
 		v.c.Close()
 	}
 }
-func (v *verifConsumer) Close() error { v.closed++; return nil }
+func (v *verifConsumer) Close() error {
+	v.closed++
+	if v.closePanics {
+		panic("close failure")
+	}
+	return nil
+}
 
 func verifStream(path string) *Stream {
 	return &Stream{path: path, startOn: time.Now(), cache: emptyCache{}, flvCache: emptyCache{},
@@ -172,7 +179,7 @@ func VerifBacklogInvariant() {
 // the publisher are untouched.
 func VerifConsumerPanic() {
 	s := verifStream("/a")
-	bad := &verifConsumer{panicAt: symapi.IntRange("panicAt", 1, 2)}
+	bad := &verifConsumer{panicAt: symapi.IntRange("panicAt", 1, 2), closePanics: symapi.Bool("closePanicsToo")}
 	good := &verifConsumer{}
 	cb := s.StartConsumeNoGopCache(bad, RTPPacket, "bad")
 	cg := s.StartConsumeNoGopCache(good, RTPPacket, "good")
@@ -290,4 +297,38 @@ func VerifFifoTwin() {
 	c.send(p2, false)
 	c.consume()
 	symapi.Assert(rec.got[0] == Pack(p2), "twin-lifo")
+}
+
+// VerifFanoutWithStalledConsumer: a consumer that is dropping for backlog does not change
+// what the other consumers receive, whatever the iteration order over the consumers.
+func VerifFanoutWithStalledConsumer() {
+	s := verifStream("/a")
+	n := symapi.IntRange("consumers", 2, 3)
+	var cons []*consumption
+	for i := 0; i < n; i++ {
+		cid := s.StartConsumeNoGopCache(&verifConsumer{}, RTPPacket, "c")
+		cons = append(cons, verifConsumption(s, cid))
+	}
+	stalled := symapi.IntRange("stalled", 0, n-1)
+	cons[stalled].discarding = true // it went over its backlog limit at an earlier key frame
+	verifFill(cons[stalled].recvQueue, 3)
+	K := symapi.Param("K", 2)
+	var sent []*rtp.Packet
+	for k := 0; k < K; k++ {
+		p := verifPack("p"+string(rune('0'+k)), 1)
+		sent = append(sent, p)
+		symapi.Assert(s.WriteRtpPacket(p) == nil, "publish-ok")
+	}
+	for i, c := range cons {
+		if i == stalled {
+			symapi.Assert(c.recvQueue.Len() == 3, "stalled-consumer-keeps-dropping-non-key-packets")
+			continue
+		}
+		got := c.recvQueue.Queue().Elems()
+		symapi.Assert(len(got) == K, "healthy-consumer-gets-every-packet")
+		for k := 0; k < K && k < len(got); k++ {
+			symapi.Assert(got[k] == queue.Elem(sent[k]), "healthy-consumer-order-and-identity")
+		}
+	}
+	symapi.Reach("end")
 }
